@@ -238,7 +238,7 @@ async def try_build(M, opts, seed):
 async def explore(tier, seed, m):
     rng = random.Random(seed * 71 + 12)
     st = {"evaluations": 0, "nontrivial": set(), "problems": [], "by_intent": {}, "by_rule": {}, "samples": [], "valid_built": 0, "not_breaking": 0, "beyond": {}, "beyond_built": 0, "known": {}}
-    n = 10 if tier == "quick" else 200
+    n = fw.scale(10 if tier == "quick" else 200)
     t0 = time.time()
     for i in range(n):
         if time.time() - t0 > (100 if tier == "quick" else 1500): break
